@@ -53,7 +53,8 @@ def gen_spec(rng, nargs=(1, 5), depth=3, profile="noany", nested=0.4, cfg=True, 
     if sub and rng.random() < sub:
         choices = {}
         for sname in rng.sample(["fit", "test", "run", "a"], rng.choice([1, 2, 3])):
-            choices[sname] = gen_spec(rng, (1, 3), depth, profile, nested / 2, cfg=rng.random() < 0.3, mode=mode, defaults=defaults, sub=0.0, hostile=hostile)
+            # a subcommand may have no options at all (its section is then empty)
+            choices[sname] = gen_spec(rng, (0, 3) if rng.random() < 0.3 else (1, 3), depth, profile, nested / 2, cfg=rng.random() < 0.3, mode=mode, defaults=defaults, sub=0.0, hostile=hostile)
         spec["sub"] = dict(required=rng.random() < 0.7, dest="subcommand", choices=choices)
     return spec
 
